@@ -104,39 +104,39 @@ def par_text(g, lalr):
 
 
 def sentence(g, rng, depth=0):
-    """A random sentence (list of terminal letter indices) of non-terminal 0."""
+    """A random sentence of non-terminal 0: list of (terminal letter index, visible) where visible = the token is neither
+    clipped itself nor inside a clipped non-terminal occurrence (so it must appear in the AST)."""
     def alts_of(a):
         return [alts for (x, alts) in g['prods'] if x == a][0]
 
-    def gen_alt(alt, d):
+    def cost(al):
+        return json.dumps(al).count('"n"')
+
+    def gen_alt(alt, d, vis):
         out = []
         for f in alt:
-            out += gen_f(f, d)
+            out += gen_f(f, d, vis)
         return out
 
-    def gen_f(f, d):
+    def gen_f(f, d, vis):
         if f[0] == 't':
-            return [f[1]]
+            return [(f[1], vis and not f[2])]
         if f[0] == 'n':
             alts = alts_of(f[1])
-            if d > 3:
-                # the alternative with the fewest non-terminal references
-                alt = min(alts, key=lambda al: json.dumps(al).count('"n"'))
-            else:
-                alt = rng.choice(alts)
-            return gen_alt(alt, d + 1)
+            alt = min(alts, key=cost) if d > 3 else rng.choice(alts)
+            return gen_alt(alt, d + 1, vis and not f[2])
         if f[0] == 'r':
             k = 0 if d > 3 else rng.choice([0, 1, 1, 2, 3])
             out = []
             for _ in range(k):
-                out += gen_alt(rng.choice(f[1]), d + 1)
+                out += gen_alt(rng.choice(f[1]), d + 1, vis)
             return out
         if f[0] == 'o':
             if d > 3 or rng.random() < 0.4:
                 return []
-            return gen_alt(rng.choice(f[1]), d + 1)
-        return gen_alt(rng.choice(f[1]), d + 1)
-    return gen_f(('n', 0, False), depth)
+            return gen_alt(rng.choice(f[1]), d + 1, vis)
+        return gen_alt(rng.choice(f[1]), d + 1, vis)
+    return gen_f(('n', 0, False), depth, True)
 
 
 # ------------------------------------------------------------------------------------------ crate
@@ -208,7 +208,7 @@ def build_crate(jobs):
             status[i] = 'no-trait'
             continue
         mods += '#[allow(dead_code, unused_imports, clippy::all)]\nmod g%d_grammar;\n#[allow(dead_code, unused_imports, clippy::all)]\nmod g%d_grammar_trait;\n#[allow(dead_code, unused_imports, clippy::all)]\nmod g%d_parser;\n' % (i, i, i)
-        arr = ', '.join(json.dumps(' '.join(letter(t) for t in s)) for s in inputs)
+        arr = ', '.join(json.dumps(' '.join(letter(t) for t, _ in s)) for s in inputs)
         runs += ('    for (j, inp) in [%s].iter().enumerate() {\n        let mut g = g%d_grammar::G%dGrammar::new();\n'
                  '        let r = std::panic::catch_unwind(std::panic::AssertUnwindSafe(|| g%d_parser::parse(inp, "in", &mut g).is_ok()));\n'
                  '        println!("CASE %d {} {}", j, match r { Ok(true) => "ok", Ok(false) => "err", Err(_) => "panic" });\n'
@@ -340,3 +340,178 @@ def to_sx(n):
     if k == 'some':
         return '(some %s)' % to_sx(n[1])
     return '(none)'
+
+
+# ------------------------------------------------------------------------------------------ export model -> driver S-expressions
+def export_sx(ev):
+    """(kind tables attributed-productions) from the JSON of `parol export`.
+    attributed production: (lhs attr ((sym sattr) ...)) with sym = terminal index | -(nt+1);
+    attr in 0 None, 1 CollectionStart, 2 AddToCollection, 3 OptionalSome, 4 OptionalNone;
+    sattr in 0 None, 1 RepetitionAnchor, 2 Option, 3 Clipped."""
+    pattr = {'None': 0, 'CollectionStart': 1, 'AddToCollection': 2, 'OptionalSome': 3, 'OptionalNone': 4}
+    sattr = {'None': 0, 'RepetitionAnchor': 1, 'Option': 2, 'Clipped': 3}
+    dts = {d['production_index']: d for d in ev['production_datatypes']}
+    aprods = []
+    prods_ll = []
+    prods_lr = []
+    for p in ev['productions']:
+        i = p['production_index']
+        syms = []
+        for y in p['rhs']:
+            if 'NonTerminal' in y:
+                syms.append((-(y['NonTerminal'] + 1), None))
+            else:
+                syms.append((y['Terminal']['index'], y['Terminal'].get('clipped', False)))
+        d = dts.get(i)
+        mem = d['members'] if d else []
+        # members correspond to the rhs symbols in order
+        items = []
+        for k, (sy, clipped) in enumerate(syms):
+            sa = sattr.get(mem[k]['symbol_attribute'], 0) if k < len(mem) else (3 if clipped else 0)
+            items.append('(%d %d)' % (sy, sa))
+        pa = pattr.get(d['production_attribute'], 0) if d else 0
+        aprods.append('(%d %d (%s))' % (p['lhs_index'], pa, ' '.join(items)))
+        push = 1 if pa == 2 else 0
+        prods_ll.append('(%d (%s) %d)' % (p['lhs_index'], ' '.join(str(sy) for sy, _ in reversed(syms)), push))
+        prods_lr.append('(%d %d)' % (p['lhs_index'], len(syms)))
+    nnt = len(ev['non_terminal_names'])
+    nterm = max([t['index'] for t in ev['scanner']['terminals']] + [5]) + 2
+    if ev.get('lalr_parse_table'):
+        t = ev['lalr_parse_table']
+        def act(a):
+            if a == 'Accept':
+                return '(a)'
+            if 'Shift' in a:
+                return '(s %d)' % a['Shift']
+            r = a['Reduce']
+            return '(r %d %d)' % ((r[0], r[1]) if isinstance(r, list) else (r['non_terminal_index'], r['production_index']))
+        acts = ' '.join(act(a) for a in t['actions'])
+        states = ' '.join('((%s) (%s))' % (' '.join('(%d %d)' % tuple(x) for x in st['actions']), ' '.join('(%d %d)' % tuple(x) for x in st['gotos'])) for st in t['states'])
+        tables = '((%s) (%s) (%s) %d %d %d)' % (acts, states, ' '.join(prods_lr), ev['start_symbol_index'], nterm, nnt)
+        kind = 'lr'
+    else:
+        autos = sorted(ev['lookahead_automata'], key=lambda a: a['non_terminal_index'])
+        asx = ' '.join('(%d %d (%s))' % (a['prod0'], a['k'], ' '.join('(%d %d %d %d)' % (t['from_state'], t['term'], t['to_state'], t['prod_num']) for t in a['transitions'])) for a in autos)
+        k = max([a['k'] for a in autos] + [0])
+        tables = '((%s) (%s) %d %d %d %d)' % (' '.join(prods_ll), asx, ev['start_symbol_index'], k, nterm, nnt)
+        kind = 'll'
+    return kind, tables, '(%s)' % ' '.join(aprods)
+
+
+def term_index_map(ev):
+    return {t['pattern']: t['index'] for t in ev['scanner']['terminals']}
+
+
+# ------------------------------------------------------------------------------------------ the check
+def c23(pid, spec, tier, seed):
+    import lschecks
+    lschecks.build_parol_bin()
+    res = lschecks.new_result()
+    rng = random.Random(seed ^ 0x23)
+    ng = 70 if tier == 'thorough' else 10
+    ns = 14 if tier == 'thorough' else 6
+    jobs, meta = [], {}
+    i = 0
+    while len(jobs) < 2 * ng:
+        g = Gen(rng).grammar()
+        sents = [sentence(g, rng) for _ in range(ns)]
+        sents = [s for s in sents if len(s) <= 60]
+        for lalr in (False, True):
+            text = par_text(g, lalr)
+            jobs.append((i, text, sents))
+            meta[i] = dict(g=g, text=text, lalr=lalr, sents=sents,
+                           start_recursive=any('"n", 0' in json.dumps(alts) for _, alts in g['prods']))
+            i += 1
+    dropped = []
+    for attempt in range(4):
+        status, rc, out = build_crate(jobs)
+        if rc == 0:
+            break
+        # generated code that does not compile is C22's subject: drop the offending module(s) and go on
+        bad = sorted(set(int(m) for m in re.findall(r'src/g(\d+)_', out)))
+        if not bad:
+            raise cl.MachineryError('scratch crate of generated parsers does not build:\n' + out[-3000:])
+        dropped += bad
+        jobs = [j for j in jobs if j[0] not in bad]
+    else:
+        raise cl.MachineryError('scratch crate of generated parsers does not build after dropping modules %s:\n%s' % (dropped, out[-2000:]))
+    for b in dropped:
+        res['skipped'] += 1
+        res['skip_reasons']['generated code does not compile (C22, not claimed)'] = res['skip_reasons'].get('generated code does not compile (C22, not claimed)', 0) + 1
+        res['notes'].append('generated code of a grammar did not compile: ' + meta[b]['text'][:300])
+    runs = run_crate()
+    lines, line_case = [], []
+    for (i, text, sents) in jobs:
+        if status.get(i) != 'generated':
+            res['evaluations'] += 1
+            res['skipped'] += 1
+            r = 'parol rejects the grammar (%s)' % ('lalr' if meta[i]['lalr'] else 'll')
+            res['skip_reasons'][r] = res['skip_reasons'].get(r, 0) + 1
+            continue
+        ev = json.load(open(os.path.join(CRATE, 'src', 'g%d.json' % i)))
+        kind, tables, aprods = export_sx(ev)
+        tmap = term_index_map(ev)
+        for j, s in enumerate(sents):
+            r = runs.get((i, j))
+            case = json.dumps(dict(grammar=text, input=' '.join(letter(t) for t, _ in s)))
+            res['evaluations'] += 1
+            if r is None:
+                lschecks.fail(res, 'no-output', 'the generated parser produced no output for this input', case)
+                continue
+            if r['status'] == 'panic':
+                lschecks.fail(res, 'adapter-panic', 'the generated parser/adapter panicked', case)
+                continue
+            if r['status'] != 'ok':
+                res['skipped'] += 1
+                res['skip_reasons']['sentence rejected by the generated parser'] = res['skip_reasons'].get('sentence rejected by the generated parser', 0) + 1
+                continue
+            nstart = r['calls'].count('Start')
+            if nstart != 1 or len(r['asts']) != 1:
+                if meta[i]['start_recursive'] and nstart >= 1:
+                    lschecks.fail(res, 'start-action-per-occurrence-recursive-start',
+                                  'the start symbol occurs on a right-hand side and its user action was called %d times (once per occurrence; the last call carries the whole AST)' % nstart, case)
+                else:
+                    lschecks.fail(res, 'start-action-count', 'the start symbol\'s user action was called %d times' % nstart, case)
+                    continue
+            if r['calls'] and r['calls'][-1] != 'Start':
+                lschecks.fail(res, 'start-action-not-last', 'the last user action is %s, not the start symbol\'s' % r['calls'][-1], case)
+                continue
+            try:
+                tree = normalize(parse_debug(r['asts'][-1]))
+            except Exception as e:
+                raise cl.MachineryError('cannot read Debug output %r: %s' % (r['asts'][-1][:200], e))
+            toks = flatten(tree)
+            want = [letter(t) for t, vis in s if vis]
+            got = [t[1] for t in toks]
+            nums = [t[2] for t in toks]
+            if got != want:
+                lschecks.fail(res, 'ast-tokens-differ', 'tokens of the AST read in order are %s, the input\'s non-clipped tokens are %s' % (' '.join(got), ' '.join(want)), case)
+                continue
+            if any(b <= a for a, b in zip(nums, nums[1:])):
+                lschecks.fail(res, 'ast-token-order', 'token numbers in the AST are not increasing: %s' % nums, case)
+                continue
+            # model comparison (driver): attributed grammar + tables + input + real AST shape
+            inp = ' '.join(str(tmap.get(letter(t), 999)) for t, _ in s)
+            def sx(n):
+                k = n[0]
+                if k == 'tok':
+                    return '(t %d)' % tmap.get(n[1], 999)
+                if k in ('vec', 's'):
+                    return '(%s %s)' % ('v' if k == 'vec' else 's', ' '.join(sx(c) for c in n[1]))
+                if k in ('w', 'some'):
+                    return '(%s %s)' % (k, sx(n[1]))
+                return '(none)'
+            lines.append('(ast %s %s %s (%s) %s)' % (kind, tables, aprods, inp, sx(tree)))
+            line_case.append(case)
+    if lines and spec.get('use_model', True):
+        before = len(res['failures'])
+        lschecks.drv_lines(pid, lines, res, 'ast')
+        # drv_lines counted the evaluations again: undo the double count
+        res['evaluations'] -= len(lines)
+        for f in res['failures'][before:]:
+            pass
+    else:
+        for c in line_case:
+            res['ok'] += 1
+    shutil.rmtree(CRATE, ignore_errors=True)
+    return res
